@@ -2,6 +2,7 @@
 import re
 from rulekit import *
 import vset
+from rules.c03 import explicit_presence_rule
 
 EXPLANATION = (
     "R6.1 phase order: in Parser::get_matches_with parse dominates resolve_pending dominates add_env dominates add_defaults "
@@ -122,7 +123,8 @@ def run(ctx):
         res.check(any(p == "T" and re.match(r"^eq\(source,|^Eq\(discr\(source", e) for p, e in bool_facts(rc, c.bb)) or has_bool(rc, c.bb, "T", r"source"), "R6.5", "verify-only-cmdline", c.where(),
                   "value counts verified only for command-line occurrences", "verify_num_args applied to non-command-line sources")
 
-    # ---- R6.6 defaults are not presence
+    # ---- R6.6 defaults are not presence (the validator's presence tests are explicit-only)
+    explicit_presence_rule(fx, res, "R6.6")
     psc = fx.body("clap_builder::parser::parser::Parser::start_custom_arg")
     grp = psc.calls_to(r"ArgMatcher::start_custom_group$")
     res.floor("R6.6", "group recording in start_custom_arg", len(grp), 1)
